@@ -82,6 +82,16 @@ def _t_allof_cycle(n):
             n[1]: {"allOf": [REF(n[0]), obj({"extra": STR}, ["extra"])]}}
 
 
+def _t_allof_required_only(n):
+    # the usual idiom for making an inherited property mandatory: an allOf member that holds only `required`
+    return {n[0]: obj({"key": INT, "k": STR}, ["key"]),
+            n[1]: {"allOf": [REF(n[0]), {"required": ["k"]}, obj({"extra": STR, "peer": REF(n[1])})]}}
+
+
+def _t_anyof_of_oneof(n):
+    return {n[0]: {"anyOf": [REF(n[1]), REF(n[2])]}, n[1]: {"oneOf": [REF(n[2]), STR]}, n[2]: obj({"v": INT, "back": REF(n[0])})}
+
+
 def _t_ring3(n):
     return {n[0]: obj({"b": REF(n[1]), "x": STR}), n[1]: obj({"c": REF(n[2]), "y": STR}), n[2]: obj({"h": REF(n[0]), "z": STR})}
 
@@ -104,6 +114,8 @@ TEMPLATES = {
     "self_direct": (2, _t_self_direct, [{"next": ("ref", 0), "v": "integer"}, {"head": ("ref", 0)}], [set(), {"head"}]),
     "allof": (2, _t_allof, [{"key": "integer", "k": "string"}, {"key": "integer", "k": "string", "extra": "string", "peer": ("ref", 1)}], [{"key"}, {"key", "extra"}]),
     "allof_cycle": (2, _t_allof_cycle, [{"key": "integer", "favourite": ("ref", 1)}, {"key": "integer", "favourite": ("ref", 1), "extra": "string"}], [{"key"}, {"key", "extra"}]),
+    "allof_required_only": (2, _t_allof_required_only, [{"key": "integer", "k": "string"}, {"key": "integer", "k": "string", "extra": "string", "peer": ("ref", 1)}], [{"key"}, {"key", "k"}]),
+    "anyof_of_oneof": (3, _t_anyof_of_oneof, [("union", [("ref", 1), ("ref", 2)]), ("union", [("ref", 2), "string"]), {"v": "integer", "back": ("ref", 0)}], [None, None, set()]),
     "ring3": (3, _t_ring3, [{"b": ("ref", 1), "x": "string"}, {"c": ("ref", 2), "y": "string"}, {"h": ("ref", 0), "z": "string"}], [set(), set(), set()]),
     "map": (2, _t_map, [{"m": ("map", ("ref", 1)), "x": "string"}, {"h": ("ref", 0), "y": "integer"}], [set(), set()]),
     "oneof": (3, _t_oneof, [None, {"u": ("ref", 0), "x": "string"}, {"y": "integer"}], [None, set(), set()]),
@@ -147,7 +159,10 @@ def k_parse(P, template, names, order):
             for pk, pv in (best.properties or {}).items():
                 props[pk] = _kind(pv, names, sanitized)
             req = sorted(best.required or [])
-        out.append((len(hits), props, req, _shape(best)))
+        members = None
+        if best is not None and (best.one_of or best.any_of):
+            members = [_kind(m, names, sanitized) for m in (best.one_of or best.any_of)]
+        out.append((len(hits), props, req, _shape(best), members))
     u = ctx.unified_cycle_context
     states = sorted(str(getattr(s, "value", s)) for s in u.schema_states.values())
     rest = (u.recursion_depth, len(u.schema_stack), states.count("in_progress"), states.count("not_started"))
@@ -264,7 +279,7 @@ class Fidelity(Obligation):
     def normalise(self, r):
         if isinstance(r, tuple):
             out, rest = r
-            return ([(c, {(_s(k)): v for k, v in p.items()}, [_s(x) for x in q], sh) for c, p, q, sh in out], rest)
+            return ([(c, {(_s(k)): v for k, v in p.items()}, [_s(x) for x in q], sh, mem) for c, p, q, sh, mem in out], rest)
         return r
 
     def verdict(self, inp, r):
@@ -274,12 +289,14 @@ class Fidelity(Obligation):
             return False, "loading raised %r" % (r,)
         out, rest = r
         _, _, want_props, want_req = TEMPLATES[self.template]
-        for i, (count, props, req, shape) in enumerate(out):
+        for i, (count, props, req, shape, members) in enumerate(out):
             if count != 1:
                 return False, "schema #%d is registered %d times" % (i, count)
-            if want_props[i] is None:
+            if want_props[i] is None or isinstance(want_props[i], tuple):
                 if shape != "union":
-                    return False, "schema #%d (a oneOf union) came out as %r" % (i, shape)
+                    return False, "schema #%d (a oneOf/anyOf union) came out as %r" % (i, shape)
+                if isinstance(want_props[i], tuple) and members != want_props[i][1]:
+                    return False, "union #%d has members %r, the document declares %r" % (i, members, want_props[i][1])
                 continue
             got = {_s(k): v for k, v in props.items()}
             if got != want_props[i]:
